@@ -1,11 +1,11 @@
 package main
 
-// C13: narrow syntactic classes of the divergences known on the unchanged tree
-// (see known-findings.d/C13.txt and notes/C13.md).  First match wins.
-
-import "strings"
-
-// ---- schema-side predicates ----------------------------------------------------------------
+// C13: classes of known divergences.
+//
+// FORWARD divergences (importer verdict != oracle) get a class only through a successful
+// root-cause confirmation (c13_confirm.go / c13_xform.go); no syntactic guessing.
+// REVERSE divergences likewise only through an experiment on the real Extract + Generate
+// (c13_confirm_rev.go).
 
 func anySchemaObj(s jv, pred func(o jobj) bool) bool {
 	found := false
@@ -15,164 +15,6 @@ func anySchemaObj(s jv, pred func(o jobj) bool) bool {
 		}
 	})
 	return found
-}
-
-func typeListHasIntegerAndNumber(s jv) bool {
-	return anySchemaObj(s, func(o jobj) bool {
-		if v, ok := o.get("type"); ok {
-			if a, ok := v.([]jv); ok {
-				hi, hn := false, false
-				for _, e := range a {
-					hi = hi || e == "integer"
-					hn = hn || e == "number"
-				}
-				return hi && hn
-			}
-		}
-		return false
-	})
-}
-
-// a const / enum value that contains a number satisfying pred
-func constEnumHasNumber(s jv, pred func(jnum) bool) bool {
-	return anySchemaObj(s, func(o jobj) bool {
-		if v, ok := o.get("const"); ok && anyNum(v, pred) {
-			return true
-		}
-		if v, ok := o.get("enum"); ok && anyNum(v, pred) {
-			return true
-		}
-		return false
-	})
-}
-
-func isIntegralFloatLit(n jnum) bool { return !isIntLiteral(n) && numRat(n).IsInt() }
-func isIntegralNum(n jnum) bool     { return numRat(n).IsInt() }
-
-func hasUniqueItemsTrue(s jv) bool {
-	return anySchemaObj(s, func(o jobj) bool {
-		v, ok := o.get("uniqueItems")
-		return ok && v == true
-	})
-}
-
-// propertyNames with a value other than true / {}
-func hasEffectivePropertyNames(s jv) bool {
-	return anySchemaObj(s, func(o jobj) bool {
-		v, ok := o.get("propertyNames")
-		if !ok {
-			return false
-		}
-		if b, ok := v.(bool); ok && b {
-			return false
-		}
-		if m, ok := v.(jobj); ok && len(m) == 0 {
-			return false
-		}
-		return true
-	})
-}
-
-// memberUnconstrained approximates `!sub.hasConstraints` of constraintAllOf: a boolean
-// schema, or an object with nothing but `type` (without "integer") and keywords that add
-// no constraint
-func memberUnconstrained(m jv) bool {
-	switch x := m.(type) {
-	case bool:
-		return true
-	case jobj:
-		for _, e := range x {
-			switch e.k {
-			case "type":
-				if typeMentions(jobj{e}, "integer") {
-					return false
-				}
-			case "if":
-				// an `if` without then/else adds nothing
-				_, t := x.get("then")
-				_, el := x.get("else")
-				if t || el {
-					return false
-				}
-			case "$comment", "default", "examples", "then", "else", "$defs", "allOf", "anyOf", "oneOf":
-				// a combinator over members without constraints adds none either
-			case "uniqueItems":
-				if e.v == true {
-					return false
-				}
-			case "propertyNames":
-				// propertyNames: true / {} translates to `_` and is not added
-				if e.v == true {
-					continue
-				}
-				if m, ok := e.v.(jobj); ok && len(m) == 0 {
-					continue
-				}
-				return false
-			default:
-				return false
-			}
-		}
-		return true
-	}
-	return false
-}
-
-// allOf with at least three members, one of them (possibly) without constraints
-func hasAllOfCountBug(s jv) bool {
-	return anySchemaObj(s, func(o jobj) bool {
-		if v, ok := o.get("allOf"); ok {
-			if a, ok := v.([]jv); ok && len(a) >= 3 {
-				// (memberUnconstrained is an approximation in both directions for nested
-				// combinators, so the number of constrained members is not checked)
-				for _, m := range a {
-					if memberUnconstrained(m) {
-						return true
-					}
-				}
-				return false
-			}
-		}
-		return false
-	})
-}
-
-func listHasFalse(o jobj, kw string) (has bool, n int) {
-	if v, ok := o.get(kw); ok {
-		if a, ok := v.([]jv); ok {
-			for _, m := range a {
-				if m == false {
-					has = true
-				}
-			}
-			return has, len(a)
-		}
-	}
-	return false, 0
-}
-
-// allOf with a literal `false` member
-func hasAllOfFalse(s jv) bool {
-	return anySchemaObj(s, func(o jobj) bool { h, _ := listHasFalse(o, "allOf"); return h })
-}
-
-// oneOf with a literal `false` member (it keeps the parent's allowed types and has no
-// constraints, so it can end up as the only kept member and then no constraint is emitted)
-func hasOneOfFalse(s jv) bool {
-	return anySchemaObj(s, func(o jobj) bool { h, _ := listHasFalse(o, "oneOf"); return h })
-}
-
-// contains whose subschema uses a validator that reports "incomplete" rather than failure
-// (struct.MinFields, list.UniqueItems, a missing required field) or a reference: list.MatchN validates the members
-// without requiring completeness, so such members count as matches
-func hasContainsWithIncompleteValidator(s jv) bool {
-	return anySchemaObj(s, func(o jobj) bool {
-		v, ok := o.get("contains")
-		if !ok {
-			return false
-		}
-		return hasKw(v, "minProperties") || hasKw(v, "required") || hasKw(v, "$ref") || hasUniqueItemsTrue(v)
-	})
 }
 
 func valueHasObject(v jv) bool {
@@ -189,11 +31,9 @@ func valueHasObject(v jv) bool {
 	return false
 }
 
-// A closed struct (additionalProperties:false, or a const/enum object = close({...})) stops
-// being closed when ANOTHER conjunct contributes an open struct to the same value inside the
-// kind disjunctions.  Second conjuncts arise from: `$ref`; the single-member shortcut of
-// allOf/anyOf/oneOf (the member is inlined); a const/enum object next to other keywords; a
-// property that is also matched by a patternProperties pattern.
+// hasCloser: the schema contains something the importer translates to a CLOSED struct
+// (additionalProperties:false, a const/enum object = close({...})) — precondition of the
+// closedness-lost confirmation.
 func hasCloser(s jv) bool {
 	return anySchemaObj(s, func(o jobj) bool {
 		if v, ok := o.get("additionalProperties"); ok && v == false {
@@ -208,365 +48,3 @@ func hasCloser(s jv) bool {
 	})
 }
 
-func hasSecondConjunct(s jv) bool {
-	return anySchemaObj(s, func(o jobj) bool {
-		// a closed struct as (part of) the value of a pattern constraint
-		if pp, ok := o.get("patternProperties"); ok {
-			if pats, ok := pp.(jobj); ok {
-				for _, q := range pats {
-					if hasCloser(q.v) {
-						return true
-					}
-				}
-			}
-		}
-		if _, ok := o.get("$ref"); ok {
-			return true
-		}
-		// a matchIf / matchN(0) validator next to the kind disjunction
-		if _, ok := o.get("if"); ok {
-			return true
-		}
-		if _, ok := o.get("not"); ok {
-			return true
-		}
-		for _, k := range []string{"allOf", "anyOf", "oneOf"} {
-			if v, ok := o.get(k); ok {
-				if a, ok := v.([]jv); ok && len(a) >= 1 {
-					return true
-				}
-			}
-		}
-		obj, other := false, false
-		for _, e := range o {
-			switch e.k {
-			case "const", "enum":
-				obj = obj || valueHasObject(e.v)
-			case "$defs", "$comment", "default", "examples":
-			default:
-				other = true
-			}
-		}
-		if obj && other {
-			return true
-		}
-		if pp, ok := o.get("patternProperties"); ok {
-			if pats, ok := pp.(jobj); ok && len(pats) >= 2 {
-				return true // two patterns may match one key
-			}
-		}
-		if pv, ok := o.get("properties"); ok {
-			if pp, ok := o.get("patternProperties"); ok {
-				props, _ := pv.(jobj)
-				pats, _ := pp.(jobj)
-				for _, p := range props {
-					for _, q := range pats {
-						if c13PatternMatches(q.k, p.k) {
-							return true
-						}
-					}
-				}
-			}
-		}
-		return false
-	})
-}
-
-// additionalProperties (false or a schema) next to `required` naming a property that is not
-// in `properties`: the importer declares the required field, which exempts it
-func hasAdditionalWithRequired(s jv) bool {
-	return anySchemaObj(s, func(o jobj) bool {
-		ap, ok := o.get("additionalProperties")
-		if !ok || ap == true {
-			return false
-		}
-		rq, ok := o.get("required")
-		if !ok {
-			return false
-		}
-		props := jobj{}
-		if v, ok := o.get("properties"); ok {
-			props, _ = v.(jobj)
-		}
-		if a, ok := rq.([]jv); ok {
-			for _, e := range a {
-				if name, ok := e.(string); ok {
-					if _, in := props.get(name); !in {
-						return true
-					}
-				}
-			}
-		}
-		return false
-	})
-}
-
-// if/then/else where one part may be STATICALLY bottom in CUE (then it is an erroring
-// matchIf argument): a const / enum / $ref next to other keywords of the same schema object
-// (e.g. {"enum":[1],"minimum":5} = 1 & >=5), or a lower and an upper numeric bound
-// (>=0.5 & <=0.3 is simplified to bottom); also an `if` nested directly in a part of an `if`.
-func ifPartMayBeBottom(v jv) bool {
-	o, ok := v.(jobj)
-	if !ok {
-		return false
-	}
-	lit, lower, upper, nestedIf := false, false, false, false
-	for _, e := range o {
-		switch e.k {
-		case "const", "enum", "$ref":
-			lit = true
-		case "minimum", "exclusiveMinimum":
-			lower = true
-		case "maximum", "exclusiveMaximum":
-			upper = true
-		case "if":
-			nestedIf = true
-		case "not":
-			// {"not":{}} / {"not":true}: matchN(0,[_]) & <a concrete kind such as null> is
-			// evaluated eagerly to bottom when the parent narrows the type
-			if e.v == true {
-				nestedIf = true
-			}
-			if m, ok := e.v.(jobj); ok && len(m) == 0 {
-				nestedIf = true
-			}
-		}
-	}
-	// (a lone $ref / const / enum conflicts with the kinds the CONTEXT allows: `#d0 & (number | {...})`)
-	return lit || (lower && upper) || nestedIf
-}
-
-func hasIfWithConflictLiteral(s jv) bool {
-	return anySchemaObj(s, func(o jobj) bool {
-		if _, ok := o.get("if"); !ok {
-			return false
-		}
-		for _, k := range []string{"if", "then", "else"} {
-			if v, ok := o.get(k); ok && ifPartMayBeBottom(v) {
-				return true
-			}
-		}
-		return false
-	})
-}
-
-// enum with two or more object values: a required field (`"a"!:`) that is missing does not
-// eliminate a disjunct, so the instance stays ambiguous between the closed structs
-func hasEnumWithTwoObjects(s jv) bool {
-	return anySchemaObj(s, func(o jobj) bool {
-		if v, ok := o.get("enum"); ok {
-			if a, ok := v.([]jv); ok {
-				n := 0
-				for _, e := range a {
-					if _, ok := e.(jobj); ok {
-						n++
-					}
-				}
-				return n >= 2
-			}
-		}
-		return false
-	})
-}
-
-// inside $defs (CUE definitions, which are closed recursively) an object branch made only of
-// validators (min/maxProperties, no properties/required/patternProperties/additionalProperties/
-// propertyNames, which would add `...`) is a closed EMPTY struct: every member is rejected
-func hasDefsWithBareObjectValidator(s jv) bool {
-	root, ok := s.(jobj)
-	if !ok {
-		return false
-	}
-	d, ok := root.get("$defs")
-	if !ok {
-		return false
-	}
-	defs, _ := d.(jobj)
-	for _, def := range defs {
-		if anySchemaObj(def.v, func(o jobj) bool {
-			val, str := false, false
-			aval, astr := false, false
-			for _, e := range o {
-				switch e.k {
-				case "minProperties", "maxProperties":
-					val = true
-				case "properties", "required", "patternProperties", "additionalProperties", "propertyNames":
-					str = true
-				case "maxItems", "contains":
-					aval = true
-				case "uniqueItems":
-					aval = aval || e.v == true
-				case "items", "minItems", "prefixItems":
-					astr = true
-				}
-			}
-			if aval && !astr {
-				return true
-			}
-			return val && !str
-		}) {
-			return true
-		}
-	}
-	return false
-}
-
-// a recursive reference ("#", or any reference inside a $defs body) beneath a validator keyword
-// (not / allOf / anyOf / oneOf / if / then / else / contains): matchN, matchIf and list.MatchN
-// report a structural cycle or swallow the incomplete evaluation
-func hasRecursiveRefUnderValidator(s jv) bool {
-	var walk func(v jv, under, inDef bool) bool
-	walk = func(v jv, under, inDef bool) bool {
-		o, ok := v.(jobj)
-		if !ok {
-			return false
-		}
-		if r, ok := o.get("$ref"); ok && under && (r == "#" || inDef) {
-			return true
-		}
-		for _, e := range o {
-			switch {
-			case e.k == "$defs":
-				if m, ok := e.v.(jobj); ok {
-					for _, x := range m {
-						if walk(x.v, false, true) {
-							return true
-						}
-					}
-				}
-			case e.k == "not" || e.k == "if" || e.k == "then" || e.k == "else" || e.k == "contains":
-				if walk(e.v, true, inDef) {
-					return true
-				}
-			case c13SchemaKw[e.k]:
-				if walk(e.v, under, inDef) {
-					return true
-				}
-			case e.k == "allOf" || e.k == "anyOf" || e.k == "oneOf":
-				if a, ok := e.v.([]jv); ok {
-					for _, x := range a {
-						if walk(x, true, inDef) {
-							return true
-						}
-					}
-				}
-			case c13SchemaMap[e.k]:
-				if m, ok := e.v.(jobj); ok {
-					for _, x := range m {
-						if walk(x.v, under, inDef) {
-							return true
-						}
-					}
-				}
-			}
-		}
-		return false
-	}
-	if walk(s, false, false) {
-		return true
-	}
-	// `$ref: "#"` anywhere while the root itself carries a validator keyword: every level of the
-	// recursion re-enters that validator
-	if root, ok := s.(jobj); ok {
-		rootValidator := false
-		for _, e := range root {
-			switch e.k {
-			case "contains", "not", "allOf", "anyOf", "oneOf", "if":
-				rootValidator = true
-			}
-		}
-		if rootValidator && anySchemaObj(s, func(o jobj) bool { r, ok := o.get("$ref"); return ok && r == "#" }) {
-			return true
-		}
-	}
-	return false
-}
-
-func c13ClassImpl(s jv, inst jv, flags string) string {
-	switch {
-	case strings.Contains(flags, "matchIf-error-arg") || hasIfWithConflictLiteral(s):
-		return "matchIf-unsatisfiable-argument"
-	case hasAllOfCountBug(s):
-		return "allOf-member-without-constraints"
-	case hasAllOfFalse(s):
-		return "allOf-false-member"
-	case hasOneOfFalse(s):
-		return "oneOf-false-member"
-	case hasContainsWithIncompleteValidator(s):
-		return "contains-incomplete-validator"
-	case hasRecursiveRefUnderValidator(s):
-		return "recursive-ref-under-validator"
-	case hasEnumWithTwoObjects(s):
-		return "enum-two-objects"
-	case hasDefsWithBareObjectValidator(s):
-		return "defs-bare-validator"
-	case hasEffectivePropertyNames(s):
-		return "propertyNames"
-	case hasCloser(s) && hasSecondConjunct(s):
-		return "closedness-lost"
-	case hasAdditionalWithRequired(s):
-		return "additionalProperties-with-required"
-	case typeListHasIntegerAndNumber(s):
-		return "type-integer-and-number"
-	case typeMentions(s, "integer") && hasIntegralFloat(inst):
-		return "type-integer-float-literal"
-	case constEnumHasNumber(s, isIntegralNum) && (hasIntegralFloat(inst) || constEnumHasNumber(s, isIntegralFloatLit)):
-		return "const-enum-number-form"
-	case hasUniqueItemsTrue(s) && hasIntegralFloat(inst):
-		return "uniqueItems-number-form"
-	}
-	return ""
-}
-
-// ---- reverse direction ---------------------------------------------------------------------------
-
-// assertion keywords whose disappearance from the generated schema makes it laxer; const and
-// enum are one family
-var c13LossOrder = []string{"required", "patternProperties", "additionalProperties", "properties", "enum",
-	"contains", "uniqueItems", "items", "minItems", "maxItems", "minProperties", "maxProperties",
-	"multipleOf", "minimum", "maximum", "exclusiveMinimum", "exclusiveMaximum", "minLength", "maxLength",
-	"pattern", "not", "oneOf", "if"}
-
-// kwCounts: how many schema objects carry each assertion keyword (const counts as enum;
-// additionalProperties only when it is not `true`)
-func kwCounts(s jv) map[string]int {
-	cnt := map[string]int{}
-	walkSchemas(s, func(o jobj) {
-		for _, e := range o {
-			k := e.k
-			if k == "const" {
-				k = "enum"
-			}
-			if k == "additionalProperties" && e.v == true {
-				continue
-			}
-			cnt[k]++
-		}
-	})
-	return cnt
-}
-
-func c13GenClassImpl(s, g jv, inst jv, flags string) string {
-	if c := c13ClassImpl(s, inst, flags); c != "" {
-		return "reverse-of:" + c
-	}
-	if hasKw(s, "$defs") || hasKw(s, "$ref") {
-		return "reverse-root-with-definitions"
-	}
-	// additionalProperties: <schema> comes back as additionalProperties: true
-	if anySchemaObj(s, func(o jobj) bool {
-		v, ok := o.get("additionalProperties")
-		_, isObj := v.(jobj)
-		return ok && isObj
-	}) {
-		return "reverse-additionalProperties-schema"
-	}
-	// a keyword that occurs in fewer schema objects of the generated schema than of the source
-	ks, kg := kwCounts(s), kwCounts(g)
-	for _, k := range c13LossOrder {
-		if ks[k] > kg[k] {
-			return "reverse-lost:" + k
-		}
-	}
-	return ""
-}
